@@ -70,7 +70,7 @@ class RulesX(py2lean2.Rules2):
     flagged "bind" (monadic: hoisted) or "int" (an integer: true when non-zero in a test)."""
 
     def __init__(self, expr=(), stmt=(), scratch=(), recv_name="self", drop=(), notnone=(), nonnull=(), alias_attrs=(),
-                 **kw):
+                 chain_attrs=(), **kw):
         self.stmt_flag = [(s[3] if len(s) > 3 else "") for s in stmt]
         py2lean2.Rules2.__init__(self, expr=expr, stmt=[s[:3] for s in stmt], **kw)
         self.scratch = set(scratch)
@@ -78,6 +78,7 @@ class RulesX(py2lean2.Rules2):
         self.drop = [_pat(p, "stmt") for p in drop]
         self.notnone = set(notnone)      # python names known not to be None (specialisation to a call shape)
         self.alias_attrs = tuple(alias_attrs)   # attributes holding a mutable array: `h = x.attr` makes `h` an alias
+        self.chain_attrs = tuple(chain_attrs)   # read-only attributes: `p = x.attr` is `x.attr` wherever `p` is used
         # expressions whose value is never None (their Lean type is not an Option); a local bound to one of them - or
         # to another such local - inherits that: `t = self.target; if t is None: …` is `if false`
         self.nonnull = [_sort_keywords(_pat(p, "expr")) for p in nonnull]
@@ -231,6 +232,32 @@ def _alias_subst(body, attrs):
             out = [ast.fix_missing_locations(sub.visit(x)) for j, x in enumerate(out) if x is not st]
             return _alias_subst(out, attrs)
     return out
+
+
+def _chain_subst(body, attrs):
+    """`pts = source.points` for a read-only attribute chain of a name that is never re-bound: every later use of `pts`
+    is a use of `source.points`.  Done only when `pts` is assigned once, the root name is never assigned in the
+    function and nothing in the function assigns an attribute of that name (`x.points = …`): then the substitution is
+    exact, and rules that fix WHICH object an expression is read from (`R2LogR2RBF(source.points)`) still see it."""
+    if not attrs:
+        return body
+    mod = ast.Module(body=body, type_ignores=[])
+    for n in ast.walk(mod):
+        if isinstance(n, ast.Attribute) and n.attr in attrs and isinstance(n.ctx, ast.Store):
+            return body
+    stores = {}
+    for x in ast.walk(mod):
+        if isinstance(x, ast.Name) and isinstance(x.ctx, ast.Store):
+            stores[x.id] = stores.get(x.id, 0) + 1
+    for st in list(body):
+        if (isinstance(st, ast.Assign) and len(st.targets) == 1 and isinstance(st.targets[0], ast.Name)
+                and isinstance(st.value, ast.Attribute) and st.value.attr in attrs
+                and isinstance(st.value.value, ast.Name) and stores.get(st.targets[0].id) == 1
+                and stores.get(st.value.value.id, 0) == 0):
+            sub = _Subst(st.targets[0].id, st.value)
+            out = [ast.fix_missing_locations(sub.visit(x)) for x in body if x is not st]
+            return _chain_subst(out, attrs)
+    return body
 
 
 class TranslatorX(py2lean2.Translator2):
@@ -575,6 +602,7 @@ class TranslatorX(py2lean2.Translator2):
         body = [_sort_keywords(_kw_to_positional(st, glob)) for st in node.body]
         body = _loops_to_comprehensions(body)
         body = _alias_subst(body, self.r.alias_attrs)
+        body = _chain_subst(body, self.r.chain_attrs)
         if self.r.scratch:
             tr = _Scratch(self.r.recv_name, self.r.scratch)
             body = [ast.fix_missing_locations(tr.visit(st)) for st in body]
@@ -676,6 +704,8 @@ def obj_expr():
         ("$x.h_matrix", "{x}.h"), ("$x._h_matrix", "{x}.h"),
         ("np.asarray($x)", "{x}"),
         ("np.eye($x.shape[0] + 1)", "eye"), ("np.eye($n + 1)", "eye"),
+        # a kernel held in a local (`kernel.apply(points)` before / instead of `self.kernel.apply(points)`)
+        ("$k.apply($p)", "np.kernel (({k}).getD 0) {p}"),
     ]
 
 
@@ -807,7 +837,8 @@ def obj_rules(cl, end=".ok {self}", ret=".ok ({e})", scratch=(), extra_expr=(), 
              ast.Div: "(e.scaleOf ({b}).n ({a}).n)"}
     return RulesX(expr=paren(expr), stmt=list(extra_stmt) + NP_STMT + obj_stmt() + init_stmt(cl), raise_=None,
                   raise_by=EXC, end=end, ret=ret, scratch=scratch, binop=binop, drop=drop,
-                  nonnull=("$x.target", "$x._target", "$x.source", "$x._source"), alias_attrs=("h_matrix", "_h_matrix"))
+                  nonnull=("$x.target", "$x._target", "$x.source", "$x._source"), alias_attrs=("h_matrix", "_h_matrix"),
+                  chain_attrs=("points",))
 
 
 # ---------------------------------------------------------------------------------------------------------- the file
